@@ -1,11 +1,12 @@
 SPECIFICATION MCSpec
 CONSTANTS
   U = 4
-  MaxOps = 6
+  MaxOps = 5
   FailCs = {1, 2}
   FailNs = {2}
   PruneTs = {150}
   RgsSnaps = {}
+  ResolveCs = {}
   WithReload = FALSE
 CONSTRAINT Bound
 VIEW View
